@@ -51,6 +51,7 @@ type ofile struct {
 	pos   int64
 	wonly bool // opened write-only: the file position only moves by writes
 	app   bool // O_APPEND: every write lands at the end of the file
+	osync bool // O_SYNC: every write is durable when it returns
 }
 
 // FS is one simulated disk rooted at a real directory.
@@ -237,7 +238,7 @@ func OpenFile(name string, flag int, perm os.FileMode) (*os.File, error) {
 	if err != nil {
 		return nil, err
 	}
-	o := &ofile{f: file, rel: rel, wonly: flag&(os.O_WRONLY|os.O_RDWR) == os.O_WRONLY, app: flag&os.O_APPEND != 0}
+	o := &ofile{f: file, rel: rel, wonly: flag&(os.O_WRONLY|os.O_RDWR) == os.O_WRONLY, app: flag&os.O_APPEND != 0, osync: flag&os.O_SYNC != 0}
 	f.refresh(o)
 	f.open[file] = o
 	if op != "open-w" {
@@ -471,6 +472,9 @@ func (f *FS) doWrite(file *os.File, o *ofile, b []byte, off int64, at bool) (int
 	}
 	f.refresh(o)
 	f.stampFile(file)
+	if o.osync && f.Shadow != nil && err == nil {
+		f.Shadow.synced(f, "sync", o.rel)
+	}
 	return n, err
 }
 
@@ -594,7 +598,9 @@ func FileClose(file *os.File) error {
 	f.scanUntracked()
 	f.stampFile(file)
 	delete(f.open, file)
-	_ = o
+	if o.osync && f.Shadow != nil {
+		f.Shadow.synced(f, "sync", o.rel)
+	}
 	return file.Close()
 }
 
